@@ -140,7 +140,7 @@ def main(ctx):
     ctx.audit(GROUP, "tensor")
     failed = ctx.prove(GROUP, "Props_C07", THEOREMS)
     bindir = ctx.harness(GROUP, profile="release", bins=["c07"], hooks=False)
-    cases = exec_cases(ctx, bindir, ctx.n(2500, 40000))
+    cases = exec_cases(ctx, bindir, ctx.n(2500, 25000))
 
     # Known finding F22: only cases of the excluded class on which the implementation does what
     # the model says it does may be attributed to it; anything else stays a violation.
